@@ -272,3 +272,49 @@ CAMLprim value vp_set_write_schedule(value arr)
 	return Val_unit;
 }
 CAMLprim value vp_write_calls_made(value unit) { return Val_long(vp_write_calls); }
+
+/* next() returning the library's own pointers (to observe buffer stability) */
+CAMLprim value vp_iter_next_raw(value it)
+{
+	CAMLparam1(it); CAMLlocal1(p);
+	const uint8_t *key, *val; size_t lk, lv;
+	if (mtbl_iter_next(PTR(it), &key, &lk, &val, &lv) != mtbl_res_success) CAMLreturn(Val_int(0));
+	p = caml_alloc_tuple(4);
+	Store_field(p, 0, mk_ptr(key)); Store_field(p, 1, Val_long(lk));
+	Store_field(p, 2, mk_ptr(val)); Store_field(p, 3, Val_long(lv));
+	CAMLreturn(some(p));
+}
+CAMLprim value vp_peek(value ptr, value n) { return mk_string((const uint8_t *) PTR(ptr), Long_val(n)); }
+
+/* ---- mmap shim for reader.c (compiled with -Dmmap=vp_mmap -Dmunmap=vp_munmap) ---- */
+/* mode 0: plain mmap.  mode 1: a private copy of the file whose LAST byte is flush against a
+ * PROT_NONE page.  mode 2: a copy whose FIRST byte directly follows a PROT_NONE page (and the
+ * rest of its last page is followed by another guard).  Any access outside the file's bytes by
+ * more than the slack inside the boundary page faults. */
+#include <sys/mman.h>
+#undef mmap
+#undef munmap
+static int vp_mmap_mode = 0;
+static struct { void *user; void *base; size_t total; } vp_maps[64];
+void *vp_mmap(void *addr, size_t length, int prot, int flags, int fd, off_t offset)
+{
+	if (vp_mmap_mode == 0 || length == 0) return mmap(addr, length, prot, flags, fd, offset);
+	size_t pg = 4096, data_pages = (length + pg - 1) / pg;
+	size_t total = (data_pages + 2) * pg;
+	uint8_t *base = mmap(NULL, total, PROT_READ | PROT_WRITE, MAP_PRIVATE | MAP_ANONYMOUS, -1, 0);
+	if (base == MAP_FAILED) return MAP_FAILED;
+	uint8_t *user = (vp_mmap_mode == 1) ? base + pg + data_pages * pg - length : base + pg;
+	size_t done = 0;
+	while (done < length) { ssize_t r = pread(fd, user + done, length - done, offset + done); if (r <= 0) break; done += r; }
+	mprotect(base, pg, PROT_NONE);
+	mprotect(base + pg + data_pages * pg, pg, PROT_NONE);
+	mprotect(base + pg, data_pages * pg, PROT_READ);
+	for (int i = 0; i < 64; i++) if (vp_maps[i].user == NULL) { vp_maps[i].user = user; vp_maps[i].base = base; vp_maps[i].total = total; break; }
+	return user;
+}
+int vp_munmap(void *addr, size_t length)
+{
+	for (int i = 0; i < 64; i++) if (vp_maps[i].user == addr && addr != NULL) { vp_maps[i].user = NULL; return munmap(vp_maps[i].base, vp_maps[i].total); }
+	return munmap(addr, length);
+}
+CAMLprim value vp_set_mmap_mode(value m) { vp_mmap_mode = Long_val(m); return Val_unit; }
